@@ -67,8 +67,8 @@ CLAIMS.update({
          "R01a state threading, R01b mutator<->type-effect pairing, R01c join discipline (Details::merge), R01d literal base cases, R01e operator result kinds contain every variant the operator can return, R01f state versions: the returned TypeState of Op/If/Not/Group/Return contains every always-evaluated child and no conditionally evaluated one (found and repaired: `x = 10 / (b = 2)`), R01g branch isolation in compile_if_statement. Necessary conditions of type "
          "soundness; found LocalEnv::merge, Return::type_info and del-on-local defects (fixed).", "§4 C01"),
  "C08": ("P-VAR over Op::resolve and Variant::resolve with provenance classification of stored values; table agreement of DefaultValue",
-         "R08a-d: `??` evaluates rhs only on Err and returns Ok(lhs) unchanged; the four (outcome,target) stores of `ok, err =` and its result carry the defined "
-         "values; the stored default is default_value() of the expression type and is included in ok's type; default_value pairs each kind with a literal of that kind.", "§4 C08"),
+         "R08a-d: `??` evaluates rhs only on Err, returns Ok(lhs) unchanged and otherwise returns rhs's Result untested; the four (outcome,target) stores of "
+         "`ok, err =` and its result carry the defined values, `ok` stored before `err` in both arms; the stored default is default_value() of the expression type and is included in ok's type; default_value pairs each kind with a literal of that kind.", "§4 C08"),
  "C12": ("effect pairing + join taint (shared with C01), opcode->method agreement of constant folding, who-may-consume table for resolve_constant",
          "R12a-e: constant knowledge is invalidated wherever values are written, dropped at joins, folded with the same methods as at run time, never given to "
          "iterating closure parameters, and consumed only by reviewed sites.", "§4 C12"),
